@@ -253,9 +253,9 @@ def csValue (vm : VM) : Obj → Option Bytes
 def csEntries (vm : VM) (cs : List (Name × Obj)) : List (Bytes × Option Bytes) :=
   sortE (cs.map (fun p => (nameBytes p.1, csValue vm p.2)))
 
-/-- is the entry decoded at all: `!ok || len(obfuscated) < 4` skips it -/
-def csUsable : Option Bytes → Bool
-  | some b => decide (4 ≤ b.length)
+/-- is the entry decoded at all: `!ok || len(obfuscated) < int(lenIV)` skips it (a negative `lenIV` skips nothing) -/
+def csUsable (lenIV : Int) : Option Bytes → Bool
+  | some b => decide (lenIV ≤ b.length)
   | none => false
 
 inductive DecodeFail where
@@ -274,7 +274,7 @@ def decodeAll (subrs : List (List Nat)) (lenIV : Int) :
     match v with
     | none => decodeAll subrs lenIV rest
     | some ob =>
-      if ob.length < 4 then decodeAll subrs lenIV rest
+      if (ob.length : Int) < lenIV then decodeAll subrs lenIV rest
       else
         match decodeCharString subrs (plainOf ob lenIV) with
         | .error e => .error (.cs n e)
@@ -301,41 +301,44 @@ def translate (dx dy : Rat) : Cmd → Cmd
   | .curveTo a b c d e f => .curveTo (a + dx) (b + dy) (c + dx) (d + dy) (e + dx) (f + dy)
   | .closePath => .closePath
 
-/-- are the two codes usable: `0 ≤ code < len(encoding)` -/
-def codesOK (enc : List Bytes) (s : Seac) : Bool :=
-  decide (0 ≤ s.base ∧ s.base < enc.length ∧ 0 ≤ s.accent ∧ s.accent < enc.length)
+/-- `psenc.StandardEncoding` as byte strings -/
+def stdEnc : List Bytes := T1Write.stdEnc
 
-def codeName (enc : List Bytes) (c : Int) : Bytes := enc.getD c.toNat []
+/-- are the two codes usable: `0 ≤ code ≤ 255` -/
+def codesOK (s : Seac) : Bool :=
+  decide (0 ≤ s.base ∧ s.base ≤ 255 ∧ 0 ≤ s.accent ∧ s.accent ≤ 255)
 
-/-- the glyph a composite is replaced by.  Everything comes from the base and the accent: width, stems and
-outline of the base, then the accent's outline moved by `(adx, ady)`; nothing of the composite's own charstring
-(its `hsbw` width and side bearing, `asb`) survives.  `accCmds` are the accent's commands *as the loop reads them*:
-when the accent is the composite itself, `g.Cmds` has already been overwritten with the base's. -/
-def composite (base : Glyph) (accCmds : List Cmd) (s : Seac) : Glyph :=
-  { cmds := base.cmds ++ accCmds.map (translate s.dx s.dy), hstem := base.hstem, vstem := base.vstem,
-    widthX := base.widthX, widthY := base.widthY }
+/-- `psenc.StandardEncoding[c]`: the codes of `seac` refer to the standard encoding, whatever `Encoding` the font has
+(and also when it has none) -/
+def codeName (c : Int) : Bytes := stdEnc.getD c.toNat []
+
+/-- the glyph a composite becomes: outline and stems of the base, then the accent's outline moved by `(adx, ady)`;
+the composite keeps the width its own charstring declares (`own`).  `accCmds` are the accent's commands *as the loop
+reads them*: when the accent is the composite itself, `g.Cmds` has already been overwritten with the base's. -/
+def composite (own base : Glyph) (accCmds : List Cmd) (s : Seac) : Glyph :=
+  { own with cmds := base.cmds ++ accCmds.map (translate s.dx s.dy), hstem := base.hstem, vstem := base.vstem }
 
 /-- one turn of `for _, seac := range ctx.seacs`; `none` is the nil dereference of `glyphs[seac.name]` -/
-def resolveOne (enc : List Bytes) (gs : List (Bytes × Glyph)) (si : SeacInfo) : Option (List (Bytes × Glyph)) :=
-  if !codesOK enc si.seac then some gs
+def resolveOne (gs : List (Bytes × Glyph)) (si : SeacInfo) : Option (List (Bytes × Glyph)) :=
+  if !codesOK si.seac then some gs
   else
-    let bn := codeName enc si.seac.base
-    let an := codeName enc si.seac.accent
+    let bn := codeName si.seac.base
+    let an := codeName si.seac.accent
     match lookupG gs bn, lookupG gs an with
     | some base, some accent =>
       match lookupG gs si.name with
       | none => none
-      | some _ =>
+      | some own =>
         let accCmds := if an == si.name then base.cmds else accent.cmds
-        some (setG gs si.name (composite base accCmds si.seac))
+        some (setG gs si.name (composite own base accCmds si.seac))
     | _, _ => some gs
 
-def resolveSeacs (enc : List Bytes) : List SeacInfo → List (Bytes × Glyph) → Option (List (Bytes × Glyph))
+def resolveSeacs : List SeacInfo → List (Bytes × Glyph) → Option (List (Bytes × Glyph))
   | [], gs => some gs
   | si :: rest, gs =>
-    match resolveOne enc gs si with
+    match resolveOne gs si with
     | none => none
-    | some gs' => resolveSeacs enc rest gs'
+    | some gs' => resolveSeacs rest gs'
 
 /-! ## `.notdef` and the final encoding -/
 
@@ -397,7 +400,7 @@ def extract (vm : VM) (dsc : List (String × String)) : ReadResult :=
     | .error (.cs n .fuel) => .unsupported ("charstring fuel in " ++ toString n)
     | .error (.cs n e) => .error (.charstring n e)
     | .ok (gs, ss) =>
-    match resolveSeacs enc ss gs with
+    match resolveSeacs ss gs with
     | none => .panic "nil pointer dereference: glyphs[seac.name]"
     | some gs1 =>
       let gs2 := addNotdef gs1
